@@ -70,6 +70,18 @@ theorem writer_error_reaches_caller :
     WriteSites.runUnwrapPanicError = "if outErr, ok := e.message.(outError); ok { err = outErr.err }" := by
   decide
 
+
+/-- **Markdown conversion.** The converter supplied by the embedder writes through a
+`convWriter` that records the first failed `Write`; the statement right after the converter
+call raises that error as `outError` whether or not the converter itself reports it (a
+converter that swallows the error of its writer — a `bufio.Writer` whose `Flush` result is
+ignored — must not make `Run` return nil). The other call of the converter writes into a local
+`strings.Builder`, which cannot fail. -/
+theorem converter_write_error_raised :
+    WriteSites.converterCall =
+      "conv(&b) next=vm.setString(c, b.String()) | conv(w) writer=&convWriter{w: call.renderer.out} next=if w.err != nil { panic(outError{w.err}) }" := by
+  decide +kernel
+
 /-! ### non-vacuity and the negative case -/
 
 -- a concrete three-chunk render, failing at the second write
